@@ -101,18 +101,25 @@ class Run:
         env["JAVA_TOOL_OPTIONS"] = jto
         cmd = ["tlc", "-workers", str(workers or 1), "-metadir", md, "-config", cfg] + list(extra) + [module]
         t = time.time()
+        # own process group: on a timeout the JVM behind the `tlc` wrapper is killed too (a runaway model fills the disk)
+        proc = subprocess.Popen(cmd, cwd=cwd, env=env, stdout=subprocess.PIPE, stderr=subprocess.PIPE, text=True, start_new_session=True)
         try:
-            p = subprocess.run(cmd, cwd=cwd, env=env, capture_output=True, text=True, timeout=timeout)
+            so, se = proc.communicate(timeout=timeout)
         except subprocess.TimeoutExpired:
+            try:
+                os.killpg(proc.pid, 9)
+            except OSError:
+                pass
+            proc.communicate()
             raise Infra("TLC timeout on %s/%s after %ds" % (module, cfg, timeout))
         finally:
             shutil.rmtree(md, ignore_errors=True)
-        out = p.stdout + p.stderr
-        res = TLCResult(out, p.returncode, time.time() - t)
+        out = so + se
+        res = TLCResult(out, proc.returncode, time.time() - t)
         res.load_result(cwd)
         return res
 
-    def model_check(self, module, cfg, workers=None, timeout=3600, expect_ok=True):
+    def model_check(self, module, cfg, workers=None, timeout=1800, expect_ok=True):
         """Exhaustive TLC run; returns the result and accumulates state counts."""
         r = self.tlc(module, cfg, workers=workers or min(NCPU, 16), timeout=timeout)
         if r.generated is None:
